@@ -2087,7 +2087,7 @@ func NegateVal(operand Value) Value {
 	if operand.IsReference() {
 		switch o := operand.AsReference().(type) {
 		case *BigInt:
-			return Ref(o.Negate())
+			return o.Negate().Normalize()
 		case *BigFloat:
 			return Ref(o.Negate())
 		case Float64:
@@ -2149,11 +2149,11 @@ func NegateVal(operand Value) Value {
 func NegateInt(val Value) Value {
 	if val.IsReference() {
 		l := (*BigInt)(val.Pointer())
-		return Ref(l.Negate())
+		return l.Negate().Normalize()
 	}
 
 	l := val.AsSmallInt()
-	return (-l).ToValue()
+	return l.NegateVal()
 }
 
 // IncrementVal a value
